@@ -1478,6 +1478,10 @@ func (p *Parser) parseObjectLiteral() (object ObjectExpr) {
 				p.await, p.yield, p.retrn = prevAwait, prevYield, prevRetrn
 				p.exitScope(parent)
 				property.Value = &method
+			} else if method.Async || method.Generator || method.Get || method.Set {
+				// a name after *, async, get, or set must be a method
+				p.fail("object literal", OpenParenToken)
+				return
 			} else if p.tt == ColonToken {
 				// PropertyName : AssignmentExpression
 				p.next()
